@@ -25,7 +25,8 @@ CLAIMS = {
     "C02": dict(text="Proved for every state, environment and argument: a balance decrease implies the Alphabet witness, the account's witness or the account being "
                      "the calling contract (debit_authorised, lifted to every step of every history and to whole transactions); the public transfer can debit only "
                      "`from` and only with `from`'s authorisation even under the Alphabet witness; it never FAULTs, answers true iff the exact acceptance condition "
-                     "holds, and a refusal changes nothing. Correspondence run + a monitor correlating every observed decrease with the transaction's signers.",
+                     "holds, and a refusal changes nothing; the same along every history of the composed system (NeoFS.BalanceSystem): a debit made through a Netmap tick "
+                     "is Alphabet-authorised too. Correspondence run + a monitor correlating every observed decrease with the transaction's signers.",
                 note=NOTE, technique=TECH),
     "C09": dict(text="Proved: lock creates exactly <amount, until, from>; a tick with epoch < until never debits or alters a lock record; after a HALTed tick no "
                      "20-byte lock record with until <= epoch remains (all expiring locks released, any number at once); the releasing step moves exactly the remaining "
